@@ -30,7 +30,7 @@ def affine_case(rng, kind, variant):
     p["problemtype"] = "axisymmetric" if axi else "planar"
     p["units"] = rng.choice(femgen.UNITS)
     p["depth"] = rng.choice([1.0, 2.0, 5.0])
-    p["precision"] = 1e-8
+    p["precision"] = 1e-10        # the claim is "to solver precision": ask for a precision the tolerance below can resolve on a 300 K level
     p["dosmartmesh"] = rng.choice([0, 1])
     p["minangle"] = rng.choice([15.0, 30.0])
     W, H = rng.choice([2.0, 3.0, 5.0]), rng.choice([1.0, 2.0, 4.0])
